@@ -26,7 +26,16 @@ def run_one(m, tier, tests, seed):
     try:
         repo = os.path.join(d, "repo")
         shutil.copytree("/repo", repo, ignore=shutil.ignore_patterns(".git", "__pycache__", "docs", "examples", "*.ipynb"))
-        edits = m.get("edits") or [{"file": m["file"], "old": m["old"], "new": m["new"]}]
+        if m.get("patch"):
+            r = subprocess.run(["git", "apply", "--unsafe-paths", "--directory=" + repo, os.path.join(VERIF, m["patch"])],
+                               cwd=repo, capture_output=True, text=True)
+            if r.returncode != 0:
+                r = subprocess.run(["patch", "-p1", "-i", os.path.join(VERIF, m["patch"])], cwd=repo, capture_output=True, text=True)
+                if r.returncode != 0:
+                    return m["id"], {"error": "patch failed: " + r.stdout + r.stderr}
+            edits = []
+        else:
+            edits = m.get("edits") or [{"file": m["file"], "old": m["old"], "new": m["new"]}]
         for e in edits:
             p = os.path.join(repo, e["file"])
             s = open(p).read()
